@@ -241,7 +241,10 @@ def shards(tier, seed):  # pylint: disable=unused-argument,too-many-locals
     thorough = tier == 'thorough'
     out = []
     versions = [item.value.code for item in TlsVersion]
-    out.append(Shard(MOD, 'ja3_version', 'version', {'CODES': versions}, 600, bounds='every defined protocol version'))
+    half = len(versions) // 2
+    for index, codes in enumerate((versions[:half], versions[half:])):
+        out.append(Shard(MOD, 'ja3_version', 'version/%d' % index, {'CODES': codes}, 600,
+                         bounds='every defined protocol version (half %d of the table)' % index))
     step = 128 if not thorough else 512
     all_lows = list(range(0, 65536, step))
     interesting = sorted({0x00ff // step * step, 0x5600 // step * step, 0x0a0a // step * step, 0xc02f // step * step,
@@ -252,7 +255,7 @@ def shards(tier, seed):  # pylint: disable=unused-argument,too-many-locals
             if not thorough and pos == 1:
                 continue
             if not thorough and base_idx == 1:
-                lows = [interesting[0], interesting[2], interesting[4]]
+                lows = [interesting[0], interesting[2], interesting[3]]     # SCSV, TLS 1.3 and fallback-SCSV ranges
             for low in lows:
                 out.append(Shard(MOD, 'ja3_suite', 'suite/%d-%d/%04x' % (base_idx, pos, low),
                                  {'SUITES': suites, 'POS': pos, 'EXT': ext, 'LO': low, 'HI': low + step,
@@ -270,25 +273,38 @@ def shards(tier, seed):  # pylint: disable=unused-argument,too-many-locals
                 pass
     ext_step = 4096
     ext_lows = list(range(0, 65536, ext_step))
+
+    def spans(lows, cut):
+        # the first range holds nearly all assigned codes (one path each): split it so that it spreads over processes
+        out_spans = []
+        for low in lows:
+            if low == 0:
+                out_spans += [(0, cut), (cut, 2 * cut), (2 * cut, ext_step)]
+            else:
+                out_spans.append((low, low + ext_step))
+        return out_spans
+
     for pos in (0, 1, 3):
         lows = ext_lows if thorough else sorted({0, 0x0a0a // ext_step * ext_step, 0xf000, ext_lows[(seed + pos) % 16]})
         if not thorough and pos == 1:
-            lows = [0]
-        for low in lows:
+            continue
+        if not thorough and pos == 3:
+            lows = [low for low in lows if low]
+        for low, high in spans(lows, 18):
             out.append(Shard(MOD, 'ja3_extension_type', 'extension/%d/%04x' % (pos, low),
-                             {'POS': pos, 'LO': low, 'HI': low + ext_step, 'PARSED': sorted(parsed_types)}, 900,
+                             {'POS': pos, 'LO': low, 'HI': high, 'PARSED': sorted(parsed_types)}, 900,
                              bounds='extension with empty body and type %#06x..%#06x (unparsed, unknown, GREASE) at '
-                                    'position %d of 4' % (low, low + ext_step - 1, pos)))
+                                    'position %d of 4' % (low, high - 1, pos)))
     for pos in (0, 2):
         for formats in (True, False):
             lows = ext_lows if thorough else sorted({0, 0x0a0a // ext_step * ext_step, ext_lows[(seed + 3) % 16]})
             if not thorough and not formats:
                 lows = lows[:1]
-            for low in lows:
+            for low, high in spans(lows, 20):
                 out.append(Shard(MOD, 'ja3_group', 'group/%d%s/%04x' % (pos, 'f' if formats else '', low),
-                                 {'POS': pos, 'FORMATS': formats, 'LO': low, 'HI': low + ext_step}, 900,
+                                 {'POS': pos, 'FORMATS': formats, 'LO': low, 'HI': high}, 900,
                                  bounds='supported group %#06x..%#06x at position %d of 3, ec_point_formats %s' % (
-                                     low, low + ext_step - 1, pos, 'present' if formats else 'absent')))
+                                     low, high - 1, pos, 'present' if formats else 'absent')))
     for pos in (0, 1):
         for groups in (True, False):
             out.append(Shard(MOD, 'ja3_point_format', 'point_format/%d%s' % (pos, 'g' if groups else ''),
